@@ -230,6 +230,7 @@ func parseRun(args []string) error {
 		ev["results"] = parseObserve(data, trFormats[fname])
 		w.write(ev)
 		w.flush()
+		exitIfLeaked(w)
 	}
 	if *replay != "" {
 		return readND(*replay, func(ev map[string]any) error {
